@@ -1,0 +1,39 @@
+//go:build verif
+
+package swagtool
+
+// Contracts for gvc (see /verif/DESIGN.md). Comment-only: this file adds no code to any build.
+
+//@ spec hasRequired(v string) bool = exists(i, 0, common.splitLen(v, ","), common.splitAt(v, ",", i) == "required")
+
+//@ func IsFieldRequired props C06,C07,C14 pure
+//@ ensures result == hasRequired(validationString)
+//@ loop 0 invariant 0 <= _n && _n <= len(validationRules) && forall(k, 0, _n, validationRules[k] != "required")
+
+//@ func IsPrimitiveType props C06,C14 pure
+//@ ensures result == (typeName == "string" || typeName == "int" || typeName == "int8" || typeName == "int16" || typeName == "int32" || typeName == "int64" || typeName == "uint" || typeName == "uint8" || typeName == "uint16" || typeName == "uint32" || typeName == "uint64" || typeName == "bool" || typeName == "float32" || typeName == "float64")
+
+//@ func IsHiddenAsset props C01,C14
+//@ ensures result == (hideOptions != nil && hideOptions.Type == definitions.HideMethodAlways)
+
+//@ func IsDeprecated props C01,C14
+//@ ensures result == (deprecationOptions != nil && deprecationOptions.Deprecated)
+
+//@ func IsSecurityNameInSecuritySchemes props C04,C14
+//@ ensures result == exists(k, 0, len(securitySchemes), securitySchemes[k].SecurityName == securityName)
+//@ loop 0 invariant 0 <= _n && _n <= len(securitySchemes) && forall(k, 0, _n, securitySchemes[k].SecurityName != securityName)
+
+//@ func HasEmbeddedField props C07,C14
+//@ ensures result == exists(k, 0, len(fields), fields[k].IsEmbedded && fields[k].Type != "error")
+//@ loop 0 invariant 0 <= _n && _n <= len(fields) && forall(k, 0, _n, !(fields[k].IsEmbedded && fields[k].Type != "error"))
+
+//@ func IsGenericObject props C07,C14 pure
+//@ ensures result == (typeName == "interface{}" || typeName == "any" || typeName == "")
+
+//@ func GetTagValue props C07,C14
+//@ ensures absent: implies(strings.Index(tagStr, tagName+":\"") < 0, result == defaultValue)
+//@ ensures present: implies(strings.Index(tagStr, tagName+":\"") >= 0, exists(e, 0, len(tagStr)+1, e >= strings.Index(tagStr, tagName+":\"")+len(tagName)+2 && (e == len(tagStr) || tagStr[e] == '"') && forall(j, strings.Index(tagStr, tagName+":\"")+len(tagName)+2, e, tagStr[j] != '"') && result == ite(e > strings.Index(tagStr, tagName+":\"")+len(tagName)+2, tagStr[strings.Index(tagStr, tagName+":\"")+len(tagName)+2:e], defaultValue)))
+//@ loop 0 invariant start <= end && end <= len(tagStr) && forall(j, start, end, tagStr[j] != '"')
+
+//@ func GetJsonNameFromTag props C07,C14
+//@ ensures true
